@@ -30,13 +30,16 @@ var shimImports = map[string][2]string{
 	"sync/atomic": {"verif.local/engine/vatomic", "atomic"},
 	"time":        {"verif.local/engine/vtime", "time"},
 	"crypto/rand": {"verif.local/engine/vrand", "rand"},
+	"context":     {"verif.local/engine/vcontext", "context"},
 }
+
+const vcontextPath = "verif.local/engine/vcontext"
 
 const vschedPath = "verif.local/engine/vsched"
 const vschedName = "vsched__"
 
 type stats struct {
-	Files, Selects, Sends, Recvs, Closes, Gos, Ranges, MapRanges, Imports int
+	Files, Selects, Sends, Recvs, Closes, Gos, Ranges, MapRanges, Imports, CtxErr int
 }
 
 var st stats
@@ -141,6 +144,8 @@ type rewriter struct {
 	path      string
 	skip      map[ast.Node]bool
 	needSched bool
+	needCtx   bool
+	ctxName   string
 	changed   bool
 	buildLine string
 	tmp       int
@@ -183,6 +188,19 @@ func (r *rewriter) isChan(e ast.Expr) bool {
 	return ok
 }
 
+func (r *rewriter) isContext(e ast.Expr) bool {
+	t := r.info.TypeOf(e)
+	if t == nil {
+		return false
+	}
+	n, ok := t.(*types.Named)
+	if !ok {
+		return false
+	}
+	o := n.Obj()
+	return o != nil && o.Pkg() != nil && o.Pkg().Path() == "context" && o.Name() == "Context"
+}
+
 func (r *rewriter) chanOf(e ast.Expr) *types.Chan {
 	t := r.info.TypeOf(e)
 	if t == nil {
@@ -203,6 +221,9 @@ func (r *rewriter) run() bool {
 					broken("%s: unsupported import form of %s", r.path, p)
 				}
 				name = imp.Name.Name
+			}
+			if p == "context" {
+				r.ctxName = name
 			}
 			imp.Path.Value = strconv.Quote(sh[0])
 			imp.Name = id(name)
@@ -279,6 +300,17 @@ func (r *rewriter) run() bool {
 				}
 			}
 		case *ast.CallExpr:
+			if sel, ok := n.Fun.(*ast.SelectorExpr); ok && sel.Sel.Name == "Err" && len(n.Args) == 0 && r.isContext(sel.X) {
+				name := r.ctxName
+				if name == "" {
+					name = "vcontext__"
+					r.needCtx = true
+				}
+				c.Replace(call(&ast.SelectorExpr{X: id(name), Sel: id("Err")}, sel.X))
+				r.changed = true
+				st.CtxErr++
+				return true
+			}
 			if fid, ok := n.Fun.(*ast.Ident); ok && fid.Name == "close" && len(n.Args) == 1 {
 				if _, isBuiltin := r.info.Uses[fid].(*types.Builtin); isBuiltin {
 					n.Fun = sched("Close")
@@ -335,6 +367,9 @@ func (r *rewriter) run() bool {
 	})
 	if r.needSched {
 		astutil.AddNamedImport(r.fset, r.file, vschedName, vschedPath)
+	}
+	if r.needCtx {
+		astutil.AddNamedImport(r.fset, r.file, "vcontext__", vcontextPath)
 	}
 	return true
 }
